@@ -350,6 +350,7 @@ func init() {
 		registerReplay("C11/io-socket", func(c ioCase) *fail { return runIOCase(c, nil) })
 		registerReplay("C11/concurrent-reads", runConcReadCase)
 		registerReplay("C11/held-writes", runHeldWriteCase)
+		registerReplay("C11/staticfs-reads", runStaticReadCase)
 		registerReplay("C11/cut", func(c ioCutCase) *fail { _, f := runIOCutCase(c); return f })
 	})
 }
@@ -496,6 +497,19 @@ func TestC11(t *testing.T) {
 	}, func(c concReadCase) *fail {
 		h.Case(evid.HashJSON(c), c.EOFReads > 0, "concurrent-reads")
 		return runConcReadCase(c)
+	})
+	// reads of the sample static file system, offsets beyond the end included
+	rapidCases(h, "staticfs-reads", env.PerShard(env.Pick(1600, 60000)), func(rt *rapid.T) staticReadCase {
+		c := staticReadCase{Size: rapid.SampledFrom([]int{0, 1, 16, 4000, 9000}).Draw(rt, "size"), Mounted: rapid.Bool().Draw(rt, "mounted"),
+			Msize: rapid.SampledFrom([]uint32{4096, 8192, 65536}).Draw(rt, "msize"), Len: rapid.SampledFrom([]int{0, 1, 10, 4000, 5000, 20000}).Draw(rt, "len")}
+		c.Off = rapid.SampledFrom([]uint64{0, 1, uint64(c.Size) / 2, uint64(max(c.Size-1, 0)), uint64(c.Size), uint64(c.Size) + 1, uint64(c.Size) + 4096, 1<<32 + 3, 1 << 62}).Draw(rt, "off")
+		return c
+	}, func(c staticReadCase) *fail {
+		h.Case(evid.HashJSON(c), c.Off >= uint64(c.Size) && c.Len > 0, "staticfs-reads")
+		if h.WantSample("staticfs-reads") {
+			h.Sample("staticfs-reads", c)
+		}
+		return runStaticReadCase(c)
 	})
 	// small and large writes held inside the backend while other requests are
 	// served: what the backend stores is what the caller passed (engine of C18)
